@@ -259,8 +259,8 @@ def resolveActors (F : TFacts) (maxDepth : Int) : Nat → Nat → List Iri → P
           let recur ← resolveActors F maxDepth fuel (depth + 1) more
           pure (acc ++ (match act with | some x => [x] | none => []) ++ recur)) []
 
-/-- `prepare`: the recipient inboxes, and the activity with hidden recipients stripped -/
-def prepare (F : TFacts) (outbox : Iri) (a : J) : Prog (List Iri × J) := do
+/-- `prepare`: the recipient inboxes (its last act, stripping the hidden recipients in place, is in `deliverS2S`) -/
+def prepare (F : TFacts) (outbox : Iri) (a : J) : Prog (List Iri) := do
   let r ← addressing.foldlM (fun (acc : List Iri) p =>
       match prop F a p with
       | none => pure acc
@@ -284,12 +284,13 @@ def prepare (F : TFacts) (outbox : Iri) (a : J) : Prog (List Iri × J) := do
   let ignore ← getInbox F thisActor
   let targets ← strsOf "prepare: k.String() on nil in dedupeIRIs" targets
   let ignore ← strOf "prepare: elem.String() on nil in dedupeIRIs" ignore
-  pure (dedupeIRIs targets [ignore], stripHiddenRecipients F a)
+  pure (dedupeIRIs targets [ignore])
 
-/-- `Deliver`: returns the activity as it is after delivery (hidden recipients stripped in place) -/
+/-- `Deliver`: returns the activity as it is after delivery (hidden recipients stripped in place, which is
+the last thing `prepare` does once all recipients are known) -/
 def deliverS2S (F : TFacts) (outbox : Iri) (a : J) : Prog J := do
-  let (recipients, a') ← prepare F outbox a
-  deliverToRecipients outbox a' recipients
-  pure a'
+  let recipients ← prepare F outbox a
+  deliverToRecipients outbox (stripHiddenRecipients F a) recipients
+  pure (stripHiddenRecipients F a)
 
 end AV.Pub
